@@ -389,6 +389,16 @@ Definition type_string (dt : text) (elements : Z) : text :=
   else if 1 <? elements then dt ++ [91] ++ print_int elements ++ [93]
   else dt.
 
+(* {attr: _value[attr] for attr in data_type["data_type"]["attributes"]} *)
+Fixpoint pick_attrs (fs : list (text * rvalue)) (attrs : list text) (acc : list (text * rvalue)) : res (list (text * rvalue)) :=
+  match attrs with
+  | [] => Ok acc
+  | a :: r => match dget a fs with
+              | Some x => pick_attrs fs r (dset a x acc)
+              | None => Err (Foreign KeyError)
+              end
+  end.
+
 Definition parse_read_reply_t (data : bytes) (info : tinfo) (elements : Z) : res (rvalue * text) :=
   let is_struct := is_struct_reply data in
   let stream := if is_struct then skipn 4 data else skipn 2 data in
@@ -407,16 +417,7 @@ Definition parse_read_reply_t (data : bytes) (info : tinfo) (elements : Z) : res
         if is_struct && negb (match tc with KStr _ _ => true | _ => false end)
         then match v with
              | RStruct fs =>
-                 (* {attr: _value[attr] for attr in data_type["data_type"]["attributes"]} *)
-                 let fix pick (attrs : list text) (acc : list (text * rvalue)) : res (list (text * rvalue)) :=
-                   match attrs with
-                   | [] => Ok acc
-                   | a :: r => match dget a fs with
-                               | Some x => pick r (dset a x acc)
-                               | None => Err (Foreign KeyError)
-                               end
-                   end in
-                 let* fs' := pick (ti_attrs info) [] in
+                 let* fs' := pick_attrs fs (ti_attrs info) [] in
                  if ti_struct info then Ok (RStruct fs') else Err (Foreign TypeError)
              | _ => Err (Foreign TypeError)
              end
